@@ -103,6 +103,7 @@ def mon_c03(k, domain, password, up_frames, wildcard=False, srv="srv"):
     for f, rec in up_frames.items():
         for d in rec["dgrams"]:
             by_dgram[d] = f
+    raw_login_dgram = {}   # recv id of a raw login datagram -> did it carry the correct response?
     ok_at_recv = {}  # frame -> True if some carrying datagram arrived while its slot was authorised
     seen_at_recv = set()
     asm = DownAsm()
@@ -141,11 +142,14 @@ def mon_c03(k, domain, password, up_frames, wildcard=False, srv="srv"):
                 if len(d) < 4:
                     continue
                 cmd, uid = d[3] & 0xF0, d[3] & 0x0F
-                if cmd == proto.RAW_LOGIN and len(d) >= 20 and authed.get(uid) and uid in ch and \
-                        d[4:20] == proto.login_hash(password, (ch[uid] + 1) & 0xFFFFFFFF):
-                    if not rawauthed.get(uid):
-                        st["c03_raw_logins_ok"] += 1
-                    rawauthed[uid] = True
+                if cmd == proto.RAW_LOGIN:
+                    good_raw = len(d) >= 20 and bool(authed.get(uid)) and uid in ch and \
+                        d[4:20] == proto.login_hash(password, (ch[uid] + 1) & 0xFFFFFFFF)
+                    raw_login_dgram[kw["id"]] = good_raw
+                    if good_raw:
+                        if not rawauthed.get(uid):
+                            st["c03_raw_logins_ok"] += 1
+                        rawauthed[uid] = True
                 if f is not None:
                     seen_at_recv.add(f)
                     if rawauthed.get(up_frames[f]["slot"]):
@@ -186,7 +190,14 @@ def mon_c03(k, domain, password, up_frames, wildcard=False, srv="srv"):
                     continue
                 cmd, uid = d[3] & 0xF0, d[3] & 0x0F
                 if cmd == proto.RAW_LOGIN:
-                    if rawauthed.get(uid):
+                    # the reply (and the rebinding of the session to the sender) is an effect of the datagram being
+                    # handled: that very datagram must carry the response, not merely some earlier one
+                    cause_ok = raw_login_dgram.get(kw.get("cause"), None)
+                    if cause_ok is False:
+                        bad("C03:raw-login-accepted-without-valid-response",
+                            "server acknowledged (and bound the session to the sender of) a raw-mode login for slot %d that does not carry the response to challenge+1" % uid,
+                            ev, slot=uid, sent_to=kw["dst"][0])
+                    elif rawauthed.get(uid):
                         kinds.add(("raw-login-reply", "authorised"))
                     else:
                         bad("C03:raw-login-accepted-without-valid-response",
